@@ -79,6 +79,32 @@ def mutations(M, rng):
             return rng.choice([x for x in shapes if x != t])
         for _ in range(3):
             m = clone(); edit_obj_field(m, lambda d, f: f.__setitem__("type", reshape(f["type"]))); out.append(("interface-field-type-rewrapped", m, {}))
+        # an abstract field type narrowed to one of its possible types AND re-wrapped ([Impl] where Iface is declared ...)
+        absf = [(o2, i2, f) for o2, i2 in impl for f in ifull[i2] if any(dd["kind"] in ("interface", "union") and dd["name"] == base(f["type"]) for dd in M["defs"])]
+        for (o, i, f0) in absf[:2]:
+            fname = f0["name"]; ab = base(f0["type"])
+            members = [o3 for o3, e3 in full.items() if ab in e3["interfaces"]] + [m_ for dd in M["defs"] + M["exts"] if dd["kind"] == "union" and dd["name"] == ab for m_ in dd["members"]]
+            if members:
+                for _ in range(2):
+                    nb = rng.choice(members)
+                    def narrow(d, f, nb=nb):
+                        t = reshape(f["type"]); js = json.dumps(t).replace(json.dumps({"n": ab}), json.dumps({"n": nb})); f["type"] = json.loads(js)
+                    m = clone(); edit_obj_field(m, narrow); out.append(("interface-field-type-narrowed-rewrapped", m, {}))
+        # the same on a synthesised self-referencing field (always available): the interface declares `selfRef: I`, every
+        # implementer follows, except one that answers with a LIST (or a list of non-null ...) of itself
+        for shape in rng.sample(["l", "lnn", "nnl", "ll"], 2):
+            m = clone(); o_, i_ = rng.choice(impl)
+            for d in m["defs"]:
+                if d["kind"] == "interface" and d["name"] == i_:
+                    d["fields"].append({"name": "selfRef", "args": [], "type": {"n": i_}, "deprecated": None, "hidden": False})
+            done = set()
+            for d in m["defs"]:
+                if d["kind"] == "object" and d["name"] in full and i_ in full[d["name"]]["interfaces"] and d["name"] not in done:
+                    done.add(d["name"])
+                    b_ = {"n": d["name"]}
+                    ty = {"n": i_} if d["name"] != o_ else {"l": {"l": b_}, "lnn": {"l": {"nn": b_}}, "nnl": {"nn": {"l": b_}}, "ll": {"l": {"l": b_}}}[shape]
+                    d["fields"].append({"name": "selfRef", "args": [], "type": ty, "deprecated": None, "hidden": False})
+            out.append(("interface-field-type-narrowed-rewrapped", m, {}))
         m = clone(); edit_obj_field(m, lambda d, f: f.__setitem__("args", f["args"] + [{"name": "extraRequired", "type": {"nn": {"n": "Int"}}, "default": None}])); out.append(("interface-extra-required-argument", m, {}))
         withargs = [(o2, i2, f) for o2, i2 in impl for f in ifull[i2] if f["args"]]
         if withargs:
@@ -106,6 +132,13 @@ def mutations(M, rng):
             if d["name"] == nm: d["fields"] = []
         m["exts"] = [e for e in m["exts"] if e["name"] != nm]
         out.append(("object-without-fields", m, {}))
+    # ...the same for each ROOT type (the engine injects __schema / __type / __typename there: they do not count as fields)
+    for rootn in [x for x in (M["query"], M["mutation"]) if x]:
+        m = clone()
+        for d in m["defs"]:
+            if d["name"] == rootn: d["fields"] = []; d["interfaces"] = []
+        m["exts"] = [e for e in m["exts"] if e["name"] != rootn]
+        out.append(("root-object-without-fields", m, {}))
     if unions:
         m = clone(); d = pick_def(m, "union"); d["members"].append(d["name"]); out.append(("union-containing-itself", m, {}))
         m = clone(); d = pick_def(m, "union"); d["members"].append(d["members"][0]); out.append(("duplicate-union-member", m, {}))
